@@ -74,6 +74,47 @@ func ValidateInlineImageFilter(dict pdf.Dict) error {
 	return nil
 }
 
+// ValidateInlineImage reports an error if an inline image with the given
+// dict and data is one which the content stream scanner of this package
+// refuses to read back: the width and height (W/Width, H/Height) must be
+// present and within the scanner's limits, the data must not be longer than
+// 4096 bytes (the limit of PDF 2.0 §8.9.7), a positive L/Length entry must
+// equal the length of the data, and the filter must be permitted (see
+// [ValidateInlineImageFilter]).
+func ValidateInlineImage(dict pdf.Dict, data []byte) error {
+	if err := ValidateInlineImageFilter(dict); err != nil {
+		return err
+	}
+	// the scanner sees the entries in their written form
+	written := make(pdf.Dict, len(dict))
+	for key, val := range dict {
+		if val != nil {
+			written[key] = val.AsPDF(pdf.OptContentStream)
+		}
+	}
+	width := getInlineImageInt(written, "W", "Width")
+	height := getInlineImageInt(written, "H", "Height")
+	if !inlineImageSizeOK(width, height) {
+		return fmt.Errorf("inline image: width %d, height %d missing or not supported", width, height)
+	}
+	if len(data) > maxInlineImageBytes {
+		return fmt.Errorf("inline image: %d bytes of data (limit %d)", len(data), maxInlineImageBytes)
+	}
+	if length := getInlineImageInt(written, "L", "Length"); length > 0 && length != len(data) {
+		return fmt.Errorf("inline image: length entry %d for %d bytes of data", length, len(data))
+	}
+	return nil
+}
+
+// inlineImageSizeOK reports whether the scanner accepts an inline image
+// of the given width and height.
+func inlineImageSizeOK(width, height int) bool {
+	if width <= 0 || height <= 0 || width > maxInlineImageDim || height > maxInlineImageDim {
+		return false
+	}
+	return width*height <= maxInlineImagePixels
+}
+
 // DecodeInlineImage decompresses the image data from an inline image operator.
 // The operator must have name [OpInlineImage] with two arguments:
 // a [pdf.Dict] containing image parameters and a [pdf.String] holding the
